@@ -147,7 +147,7 @@ def showOutcome : Outcome → String
   | .helperError => "helper-err" | .panic => "panic" | .fuel => "model-out-of-fuel"
 
 /-- request: `ed <mode> <cols> <flags> <hist> <left> <right> <helper> <binds> key…` -/
-def handle (tbl : CharTable) (f : List String) (_impl : String) : Option (String × String) :=
+def handleCore (tbl : CharTable) (f : List String) : Option (String × EdCfg) :=
   match f with
   | mode :: cols :: flags :: hist :: left :: right :: helper :: binds :: keys => do
     let vi ← if mode == "e" then some false else if mode == "v" then some true else none
@@ -173,7 +173,7 @@ def handle (tbl : CharTable) (f : List String) (_impl : String) : Option (String
     let paste := if flags.contains 'B' then "-" else if hup then "on" else "off"
     let obs := " ".intercalate (s.obs.reverse.map showObs)
     let tail := s!"=> {outcome} H={showTexts hist} T=1 P={paste} V={showTexts s.validatorCalls.reverse}"
-    pure ((if obs.isEmpty then tail else obs ++ " " ++ tail), "-")
+    pure ((if obs.isEmpty then tail else obs ++ " " ++ tail), cfg)
   | _ => none
 
 end Rl.Drv.Editor
